@@ -14,6 +14,7 @@ Where the code at the pinned commit is defective the family has three members:
 -/
 import SteelVerif.C10.LemmasExpt
 import SteelVerif.C10.Arms
+import SteelVerif.C10.LemmasShapes
 namespace SteelVerif.C10
 
 /-! ## canonicalisation (`IntoSteelVal`) -/
@@ -515,6 +516,267 @@ example : Gen.computes2
     [⟨.IntV, .IntV, false, .compute⟩, ⟨.Rational, .Rational, false, .compute⟩,
      ⟨.BigRational, .Rational, false, .compute⟩, ⟨.Any, .Any, false, .error⟩]
     [.rat32] [.bigrat] = false := by decide
+
+/-! ## number ↔ string -/
+
+/-- **`string->number (number->string x radix) radix = x`** for every canonical exact number of any magnitude and every
+radix the two primitives accept (2..16).  `numberToString` follows `format_number` (strings.rs); `stringToNumber`
+is C12's model of `parse_number` (imported) followed by `real_literal_to_steelval`. -/
+theorem number_string_roundtrip {r : Nat} (h2 : 2 ≤ r) (h16 : r ≤ 16) {x : Num} (hx : Canonical x) :
+    stringToNumber (some r) (numberToString r x) = .ok (some x) := roundtrip_radix h2 h16 hx
+
+/-- the same through the primitives' argument handling: no radix argument on either side (decimal), or the same
+radix argument 2..16 on both sides. -/
+theorem number_string_roundtrip_prim {x : Num} (hx : Canonical x) (radix : Option Int)
+    (hr : ∀ r, radix = some r → 2 ≤ r ∧ r ≤ 16) :
+    ∃ t, numberToStringPrim radix x = .ok t ∧ stringToNumberPrim radix t = .ok (some x) := by
+  cases radix with
+  | none => exact ⟨_, rfl, roundtrip_radix (r := 10) (by omega) (by omega) hx⟩
+  | some r =>
+    obtain ⟨h2, h16⟩ := hr r rfl
+    have hn : ¬ (r < 2 ∨ r > 16) := by omega
+    refine ⟨numberToString r.toNat x, by simp [numberToStringPrim, hn], ?_⟩
+    simp only [stringToNumberPrim, hn, ↓reduceIte]
+    exact roundtrip_radix (by omega) (by omega) hx
+
+/-- the literal a value is written back as (constant folder, `quote`) reads back as the same value. -/
+theorem literal_roundtrip {x : Num} (hx : Canonical x) : litToNum (numToLit x) = .ok x := litToNum_numToLit hx
+
+/-- reading never produces a non-canonical value: whatever `string->number` returns for a text of the form
+`number->string` produces is canonical (it IS the canonical `x`); for arbitrary literals see `literal_canonical`. -/
+theorem literal_canonical (n : Int) {d : Int} (hd : 0 < d) : ∃ v, litToNum (.rat n d) = .ok v ∧ Canonical v ∧
+    denote v = (n : Rat) / (d : Rat) := by
+  have hd0 : d ≠ 0 := by omega
+  simp only [litToNum]
+  by_cases hs : (fitsIsize n && fitsIsize d) = true
+  · simp only [hs, ↓reduceIte, hd0]
+    by_cases hf : (fitsI32 n && fitsI32 d) = true
+    · simp only [hf, ↓reduceIte]
+      have hfn : fitsI32 n = true := by simp_all
+      have hfd : fitsI32 d = true := by simp_all
+      obtain ⟨r, hr, v, hv, hden, hcan⟩ := ratio32New_norm_exact hd hfn hfd
+      refine ⟨v, ?_, hcan, hden⟩
+      rw [hr]; simp only [Res.bind_ok, Res.pure_eq]; exact hv
+    · simp only [hf]
+      obtain ⟨v, hv, hden, hcan⟩ := fromQ_exact (n := n) hd0
+      exact ⟨v, hv, hcan, hden⟩
+  · simp only [hs]
+    obtain ⟨v, hv, hden, hcan⟩ := fromQ_exact (n := n) hd0
+    exact ⟨v, hv, hcan, hden⟩
+
+/-- **The code as it is violates totality here**: `string->number` on a ratio text whose numerator does not fit a
+fixnum and whose denominator is zero reaches `BigRational::new(_, 0)`, which panics (`parse_number` is called
+without `try_parse_number`'s zero-denominator validation, and `real_literal_to_steelval` checks only the
+`(Small, Small)` case).  Replayed on the real engine: findings/C10-K10g.txt. -/
+theorem string_to_number_zero_denominator_counterexample :
+    litToNum (.rat 100000000000000000000 0) = .panic ∧ litToNum (.rat 1 0) = .err .div0 := by decide
+
+/-- Non-vacuity (theorems applied): the most negative fixnum in binary, a big ratio in hexadecimal (with `e` digits —
+an exponent marker below radix 15), radix 15, decimal. -/
+example : stringToNumber (some 2) (numberToString 2 (.fix (-9223372036854775808))) = .ok (some (.fix (-9223372036854775808))) :=
+  number_string_roundtrip (by decide) (by decide) (by decide)
+example : stringToNumber (some 16) (numberToString 16 (.bigrat (-1000000000000000000000000000014) 239)) =
+    .ok (some (.bigrat (-1000000000000000000000000000014) 239)) :=
+  number_string_roundtrip (by decide) (by decide) (by decide)
+example : numberToString 16 (.rat32 (-485) 7) = ['-', '1', 'e', '5', '/', '7'] := by decide
+example : numberToString 15 (.fix 14) = ['e'] := by decide
+example : stringToNumber (some 15) ['e'] = .ok (some (.fix 14)) :=
+  number_string_roundtrip (r := 15) (x := .fix 14) (by decide) (by decide) (by decide)
+example : ∃ t, numberToStringPrim none (.big 9223372036854775808) = .ok t ∧
+    stringToNumberPrim none t = .ok (some (.big 9223372036854775808)) :=
+  number_string_roundtrip_prim (by decide) none (by intro r h; cases h)
+
+/-! ## variadic `+ - * /` -/
+
+/-- `(+ x₁ … xₙ)`, any n ≥ 0 (`add_primitive`). -/
+theorem add_variadic_exact (xs : List Num) (h : ∀ x ∈ xs, Canonical x) : Exact (addPrim xs) (sumQ xs) :=
+  addPrim_exact xs h
+
+/-- `(* x₁ … xₙ)`, any n ≥ 0. -/
+theorem mul_variadic_exact (xs : List Num) (h : ∀ x ∈ xs, Canonical x) : Exact (mulPrim xs) (prodQ xs) :=
+  mulPrim_exact xs h
+
+/-- `(- x y₁ … yₙ)`, n ≥ 1 = `x − (y₁ + … + yₙ)`; `(- x)` is `neg_exact`. -/
+theorem sub_variadic_exact {x : Num} {ys : List Num} (hx : Canonical x) (hys : ∀ y ∈ ys, Canonical y)
+    (hne : ys ≠ []) : Exact (subPrim (x :: ys)) (denote x - sumQ ys) := subPrim_exact hx hys hne
+
+/-- `(/ x y₁ … yₙ)`, n ≥ 1, no divisor zero = `x / (y₁ · … · yₙ)` (repaired reciprocal). -/
+theorem div_variadic_exact (cfg : Cfg) (hcfg : cfg.recipChecked = true) {x : Num} {ys : List Num}
+    (hx : Canonical x) (hys : ∀ y ∈ ys, Canonical y) (hne : ys ≠ []) (h0 : prodQ ys ≠ 0) :
+    Exact (divPrim cfg (x :: ys)) (denote x / prodQ ys) := divPrim_exact cfg hx hys hne h0 (Or.inl hcfg)
+
+/-- the code as it is: exact while the PRODUCT of the divisors is not `i32::MIN` / a 32-bit ratio with that numerator. -/
+theorem div_variadic_exact_partial (cfg : Cfg) {x : Num} {ys : List Num}
+    (hx : Canonical x) (hys : ∀ y ∈ ys, Canonical y) (hne : ys ≠ []) (h0 : prodQ ys ≠ 0)
+    (hg : ∀ d, mulPrim ys = .ok d → RecipGuard d = true) :
+    Exact (divPrim cfg (x :: ys)) (denote x / prodQ ys) := divPrim_exact cfg hx hys hne h0 (Or.inr hg)
+
+theorem div_variadic_pinned_counterexample :
+    divPrim Cfg.pinned [.fix 1, .fix 65536, .fix (-32768)] = .panic := by decide
+
+theorem div_variadic_by_zero (cfg : Cfg) (x : Num) {ys : List Num} (hys : ∀ y ∈ ys, Canonical y)
+    (hne : ys ≠ []) (h0 : prodQ ys = 0) : divPrim cfg (x :: ys) = .err .div0 := divPrim_zero cfg x hys hne h0
+
+/-- the two-operand models of the sections above are the two-operand instances. -/
+theorem sub_two_is_variadic (x y : Num) : subPrim [x, y] = subTwo x y := by
+  simp only [subPrim, addPrim, subTwo]; rfl
+theorem div_two_is_variadic (cfg : Cfg) (x y : Num) : divPrim cfg [x, y] = divTwo cfg x y := rfl
+
+/-- Non-vacuity (theorems applied): fixnum → bignum → ratio → back, through each fold. -/
+example : Exact (subPrim [.fix (-9223372036854775808), .fix 1, .rat32 1 2, .big 9223372036854775808])
+    (denote (.fix (-9223372036854775808)) - sumQ [.fix 1, .rat32 1 2, .big 9223372036854775808]) :=
+  sub_variadic_exact (by decide) (by decide) (by decide)
+example : subPrim [.fix (-9223372036854775808), .fix 1, .rat32 1 2, .big 9223372036854775808]
+    = .ok (.bigrat (-36893488147419103235) 2) := by decide
+example : Exact (divPrim Cfg.repaired [.fix 1, .fix 65536, .fix (-32768)])
+    (denote (.fix 1) / prodQ [.fix 65536, .fix (-32768)]) :=
+  div_variadic_exact _ rfl (by decide) (by decide) (by decide)
+    (by rw [show prodQ [Num.fix 65536, .fix (-32768)] = denote (.fix (-2147483648)) from by
+          simp only [prodQ, List.foldl, denote]; rw [← Rat.intCast_mul]; rfl]
+        exact denote_ne_zero_of_numEq (by decide) rfl)
+example : divPrim Cfg.repaired [.fix 1, .fix 65536, .fix (-32768)] = .ok (.bigrat (-1) 2147483648) := by decide
+example : divPrim Cfg.repaired [.fix 6, .fix 4, .rat32 3 2] = .ok (.fix 1) := by decide
+example : divPrim Cfg.repaired [.fix 6, .fix 4, .fix 0, .fix 5] = .err .div0 := by decide
+example : addPrim [] = .ok (.fix 0) ∧ mulPrim [] = .ok (.fix 1) ∧ subPrim [] = .err .arity := by decide
+
+/-! ## every specialised op code computes what the generic primitive computes -/
+
+/-- **Shape independence.**  For every arithmetic / comparison op code of the interpreter (`ADD SUB MUL DIV BINOPADD
+BINOPADDTAIL NUMEQUAL LTE LT GT GTE ADDREGISTER SUBREGISTER LTEREGISTER SUBREGISTER1 ADDIMMEDIATE SUBIMMEDIATE
+LTEIMMEDIATE LTEIMMEDIATEIF`) and every operand list the compiler can emit it with, the op code's arm computes what
+the function REGISTERED under the primitive's name computes on the corresponding argument list (so: what a generic
+call, `apply`, a first-class use compute).  Content beyond transcription: `BINOPADD` (`add_two_fallible` vs the
+variadic `add_primitive`), the order op codes (`windows(2).all` vs the short-circuit loop of `ord_internal`),
+`SUBIMMEDIATE` (inline fixnum path with its own promotion), `SUBREGISTER1`, `LTEIMMEDIATE(IF)`. -/
+theorem shape_independent (cfg : Cfg) (op : Op) (args gargs : List Num)
+    (h : op.genericArgs args = some gargs) (hc : ∀ x ∈ args, Canonical x) :
+    runOp cfg op args = generic cfg op.sym gargs := shape_independent_all cfg op args gargs h hc
+
+/-- the registered order primitives (`ord_internal`) and the op codes' (`windows(2).all`) agree on every operand list. -/
+theorem order_primitives_agree (p : Num → Num → Bool) (xs : List Num) : ordInternal p xs = cmpPrim p xs :=
+  ordInternal_eq_cmpPrim p xs
+
+/-- **The tables the statements above are about are the tables of the Rust source** (regenerated by
+translate/c10_ops.py on every run): which functions each op code's arm of the dispatch loop reaches and where its
+operands come from; which function is registered under each primitive name; and every emission rule of the compiler
+(`inline_num_operations`, `specialize_immediate`, `should_specialize_call`) replaces a call of `σ` only by an op code
+that `shape_independent` relates to `σ`. -/
+theorem op_tables_as_modelled :
+    Gen.opDispatch = Op.all.map (fun o => (o.name, o.reaches.1, o.reaches.2.name)) ∧
+    Gen.registered = [Sym.plus, .minus, .star, .slash, .numEq, .le, .lt, .gt, .ge].map
+      (fun s => (s.name, (registeredFn s).name)) ∧
+    emissionSound Gen.emission = true := by decide
+
+/-- Non-vacuity (theorem applied): the fixnum boundary through `SUBIMMEDIATE`, a ratio through `BINOPADD`, a chain
+through `LTE`, and the negative control of the emission check. -/
+example : runOp Cfg.repaired .SUBIMMEDIATE [.fix (-9223372036854775808), .fix 1]
+    = generic Cfg.repaired .minus [.fix (-9223372036854775808), .fix 1] :=
+  shape_independent _ _ _ _ (by decide) (by decide)
+example : runOp Cfg.repaired .BINOPADD [.rat32 1 2, .big 9223372036854775808]
+    = generic Cfg.repaired .plus [.rat32 1 2, .big 9223372036854775808] :=
+  shape_independent _ _ _ _ (by decide) (by decide)
+example : runOp Cfg.repaired .LTE [.fix 1, .rat32 3 2, .big 9223372036854775808, .fix 5]
+    = generic Cfg.repaired .le [.fix 1, .rat32 3 2, .big 9223372036854775808, .fix 5] :=
+  shape_independent _ _ _ _ (by decide) (by decide)
+example : runOp Cfg.repaired .LTE [.fix 1, .rat32 3 2, .big 9223372036854775808, .fix 5] = .ok (.bool false) := by decide
+example : runOp Cfg.repaired .SUBIMMEDIATE [.fix (-9223372036854775808), .fix 1]
+    = .ok (.num (.big (-9223372036854775809))) := by decide
+example : emissionSound [("-", "ADDIMMEDIATE", "eq2", false, true)] = false := by decide
+
+/-! ## the constant folder -/
+
+/-- **Folding a call is calling.**  `(op c₁ … cₙ)` with constant operands is replaced at compile time by the literal
+of the registered function's result; the value the program then computes is the value of the call (an error result
+keeps the call for run time).  Needs only that the function's result is canonical — which the `_exact` theorems give. -/
+theorem fold_is_call (cfg : Cfg) (f : Fn) (args : List Num)
+    (hcan : ∀ v, callFn cfg f args = .ok (.num v) → Canonical v) :
+    constFold cfg f args = callFn cfg f args := constFold_eq_call cfg f args hcan
+
+theorem fold_add_is_call (cfg : Cfg) (xs : List Num) (h : ∀ x ∈ xs, Canonical x) :
+    constFold cfg .add_primitive xs = generic cfg .plus xs := by
+  apply fold_is_call
+  intro v hv
+  obtain ⟨w, hw, _, hcan⟩ := add_variadic_exact xs h
+  simp only [callFn, hw, Res.map] at hv
+  injection hv with hv; injection hv with hv; subst hv; exact hcan
+
+theorem fold_mul_is_call (cfg : Cfg) (xs : List Num) (h : ∀ x ∈ xs, Canonical x) :
+    constFold cfg .multiply_primitive xs = generic cfg .star xs := by
+  apply fold_is_call
+  intro v hv
+  obtain ⟨w, hw, _, hcan⟩ := mul_variadic_exact xs h
+  simp only [callFn, hw, Res.map] at hv
+  injection hv with hv; injection hv with hv; subst hv; exact hcan
+
+theorem fold_sub_is_call (cfg : Cfg) {x : Num} {ys : List Num} (hx : Canonical x) (hys : ∀ y ∈ ys, Canonical y)
+    (hne : ys ≠ []) : constFold cfg .subtract_primitive (x :: ys) = generic cfg .minus (x :: ys) := by
+  apply fold_is_call
+  intro v hv
+  obtain ⟨w, hw, _, hcan⟩ := sub_variadic_exact hx hys hne
+  simp only [callFn, hw, Res.map] at hv
+  injection hv with hv; injection hv with hv; subst hv; exact hcan
+
+/-- a folded result that is NOT canonical would be observable: the literal reads back as the canonical value
+(this is how a missing demotion in a primitive shows up as a difference between the `fold` and the `call` shape). -/
+example : readBack (.big 5) = .ok (.fix 5) ∧ readBack (.bigrat 4 2) = .ok (.fix 2) := by decide
+/-- Non-vacuity (theorems applied). -/
+example : constFold Cfg.repaired .add_primitive [.fix 9223372036854775807, .fix 1, .rat32 1 2]
+    = generic Cfg.repaired .plus [.fix 9223372036854775807, .fix 1, .rat32 1 2] :=
+  fold_add_is_call _ _ (by decide)
+example : constFold Cfg.repaired .divide_primitive [.fix 1, .fix 0] = .err .div0 := by decide
+
+/-! ## `expt` with a bignum exponent -/
+
+theorem neg_one_pow_parity : ∀ n : Nat, (-1 : Int) ^ n = if n % 2 = 0 then 1 else -1
+  | 0 => by simp
+  | n + 1 => by
+    rw [Int.pow_succ, neg_one_pow_parity n]
+    by_cases h : n % 2 = 0
+    · have : (n + 1) % 2 ≠ 0 := by omega
+      simp [h, this]
+    · have : (n + 1) % 2 = 0 := by omega
+      simp [h, this]
+
+/-- bases `1` and `-1` with ANY bignum exponent (positive or negative): the exact power (`l^(−k) = l^k` for these). -/
+theorem expt_unit_base_big_exponent (cfg : Cfg) {l : Int} (hl : l = 1 ∨ l = -1) (r : Int) :
+    Exact (expt cfg (.fix l) (.big r)) (((l ^ r.natAbs : Int)) : Rat) := by
+  have e1 : fromQ 1 1 = .ok (.fix 1) := by decide
+  have e2 : fromQ 1 (-1) = .ok (.fix (-1)) := by decide
+  rcases hl with h | h <;> subst h
+  · simp only [expt, Int.one_pow]
+    by_cases h0 : 0 ≤ r
+    · simp [h0]; exact Exact.mk rfl (by decide)
+    · simp [h0, e1]; exact Exact.mk rfl (by decide)
+  · simp only [expt, neg_one_pow_parity]
+    by_cases hp : r.natAbs % 2 = 0 <;> by_cases h0 : 0 ≤ r
+    · simp [hp, h0]; exact Exact.mk rfl (by decide)
+    · simp [hp, h0, e1]; exact Exact.mk rfl (by decide)
+    · simp [hp, h0]; exact Exact.mk rfl (by decide)
+    · simp [hp, h0, e2]; exact Exact.mk rfl (by decide)
+
+/-- every other non-zero integer base with a bignum exponent (|exponent| ≥ 2^63): the exact result has more than 2^63
+bits and cannot be represented; the code starts `BigInt::pow` and cannot finish (num-bigint panics "memory overflow"
+at 2^128, below that the process exhausts memory).  The model says so instead of inventing a value. -/
+theorem expt_big_exponent_unrepresentable (cfg : Cfg) {l : Int} (h0 : l ≠ 0) (h1 : l ≠ 1) (h2 : l ≠ -1) (r : Int) :
+    expt cfg (.fix l) (.big r) = .err .resource ∧ ∀ b e, expt cfg (.big b) (.big e) = .err .resource := by
+  constructor
+  · simp [expt, h0, h1, h2]
+  · intro b e; rfl
+
+/-- an exact NON-integer exponent, and a ratio base with a bignum exponent: the code answers with a double
+(`to_f64().powf(..)`); the exact tower says nothing (the correspondence compares the bit pattern with C `pow`). -/
+theorem expt_ratio_exponent_inexact (cfg : Cfg) (a : Num) (n d : Int) :
+    expt cfg a (.rat32 n d) = .err .inexact ∧ expt cfg a (.bigrat n d) = .err .inexact := by
+  cases a <;> exact ⟨rfl, rfl⟩
+
+/-- Non-vacuity (theorems applied). -/
+example : Exact (expt Cfg.repaired (.fix (-1)) (.big (-9223372036854775809)))
+    ((((-1 : Int) ^ (-9223372036854775809 : Int).natAbs : Int)) : Rat) :=
+  expt_unit_base_big_exponent _ (Or.inr rfl) _
+example : expt Cfg.repaired (.fix (-1)) (.big (-9223372036854775809)) = .ok (.fix (-1)) := by decide
+example : expt Cfg.repaired (.fix 1) (.big 100000000000000000000) = .ok (.fix 1) := by decide
+example : expt Cfg.repaired (.fix 2) (.big 100000000000000000000) = .err .resource :=
+  (expt_big_exponent_unrepresentable _ (by decide) (by decide) (by decide) _).1
 
 /-! ## Clauses of the property not carried by a theorem -/
 
